@@ -334,6 +334,26 @@ theorem parse_terminates_counterexample :
     (buildSchemas 8 100 loopDecls).oom = true ∧ (buildSchemas 8 100 loopDecls).tr.depthExceeded = [] := by
   decide +kernel
 
+/-- The four schemas of `parse_terminates_unsanitised_name_counterexample` (F61): no alias schema at all.  The component
+    `user_group` is registered under its class-cased name `UserGroup`, so every later reference to the COMPLETED
+    `user_group` is answered RETURN_EXISTING, is NOT found under the raw name and falls through to a re-parse. -/
+def loopDecls2 : Decls := [
+  ("Bb".toList, .allOf [cRef "user_group"] [] []),
+  ("PetOwner".toList, .allOf [cRef "Bb", cRef "user_group"] [] []),
+  ("Children".toList, cObj []),
+  ("user_group".toList, .oneOf [
+      .allOf [cRef "Bb", cRef "PetOwner"]
+        [("user_group".toList, cRef "Children"), ("group".toList, .prim .boolean false)]
+        ["user_group".toList, "children".toList, "data".toList, "group".toList],
+      cRef "user_group"])]
+
+/-- ✗ `parse_terminates` again, WITHOUT an alias schema (F61, found by the oracle when recursion errors on documents
+    without alias schemas stopped being attributed to F51): at the default limit 150 the four schemas `loopDecls2` need
+    more than 320 nested `_parse_schema` calls - more than the interpreter stack holds. -/
+theorem parse_terminates_unsanitised_name_counterexample :
+    (buildSchemas 150 320 loopDecls2).oom = true := by
+  decide +kernel
+
 /-- ✗ `all_names_present`: "every declared schema name is present in the result".  An alias schema is
     resolved to its target, NOT registered under its own name ("pure reference"), and the
     post-condition of `build_schemas` raises `RuntimeError("Schema 'A' … was not parsed")`. -/
